@@ -135,8 +135,8 @@ def parseTape (s : String) : Option Tape :=
     else none
 
 /-- one `ctxop` line with its fields split; `tape?` = the decision tape, when the line carries one -/
-def handleCtxOpCore (id op p emax emin traps mode xs ys ia ds fls errs auxs : String) (tape? : Option Tape) :
-    Option (List String × Nat × Nat) := do
+def handleCtxOpCore (id op p emax emin traps mode xs ys ia ds fls errs auxs : String) (tape? : Option Tape)
+    (modelOut : Option (Option Out) := none) : Option (List String × Nat × Nat) := do
   let c ← parseCtx p emax emin traps mode
   let x ← parseDec xs
   let y ← if ys == "-" then some ({ d := {} } : PDec) else parseDec ys
@@ -153,7 +153,9 @@ def handleCtxOpCore (id op p emax emin traps mode xs ys ia ds fls errs auxs : St
   let mut mm := 0
   let mut pf := 0
   -- model correspondence, by projection
-  match (match tape? with | some tp => runCtxOpT op c x.d y.d iarg tp | none => runCtxOp op c x.d y.d iarg) with
+  match (match modelOut with
+         | some m => m
+         | none => (match tape? with | some tp => runCtxOpT op c x.d y.d iarg tp | none => runCtxOp op c x.d y.d iarg)) with
   | none =>
     if tape?.isSome then
       mm := mm + 1
@@ -196,12 +198,11 @@ def sqrtObservation (id p emax emin traps mode xs tapes : String) : Option (List
 real loop ended with is compared, field by field, with `cbrtLastIter` — the intermediate value that
 `C11_cbrt_within_ulp` / `C11_cbrt_exact` reason about and from which the model's result is computed
 (`C11_cbrt_obs_factor`).  `T=` (no observation) must coincide with the model leaving before the end of the loop. -/
-def cbrtObservation (id p emax emin traps mode xs tapes : String) : Option (List String × Nat × Nat) := do
-  let c ← parseCtx p emax emin traps mode
-  let x := (← parseDec xs).d
-  match cbrtLastIter c x with
+def cbrtObservation (id : String) (pfx : Option (Sum Out (Cond × Dec))) (tapes : String) : Option (List String × Nat × Nat) := do
+  match pfx with
   | none => some ([s!"{id} MISMATCH iter model= out of fuel"], 1, 0)
-  | some mz =>
+  | some s =>
+    let mz : Option Dec := match s with | .inl _ => none | .inr (_, z) => some z
     if tapes == "T=" then
       match mz with
       | some z => some ([s!"{id} MISMATCH iter model= reaches the end of the loop with {showDec z}, the implementation did not"], 1, 0)
@@ -216,8 +217,14 @@ def cbrtObservation (id p emax emin traps mode xs tapes : String) : Option (List
 def handleCtxOp (id : String) (t : List String) : Option (List String × Nat × Nat) :=
   match t with
   | ["cbrt", p, emax, emin, traps, mode, xs, ys, ia, "=>", ds, fls, errs, auxs, tapes] => do
-    let core ← handleCtxOpCore id "cbrt" p emax emin traps mode xs ys ia ds fls errs auxs none
-    let obs ← cbrtObservation id p emax emin traps mode xs tapes
+    -- one run of the model serves both comparisons: `cbrtOp` is `cbrtPrefix` followed by `cbrtTail`
+    -- (C11_cbrt_obs_factor), and the observed iterate is the one the prefix ends with
+    let c ← parseCtx p emax emin traps mode
+    let x := (← parseDec xs).d
+    let pfx := cbrtPrefix c x
+    let mo : Option Out := pfx.map (fun s => match s with | .inl o => o | .inr (fl0, z) => cbrtTail c x fl0 z)
+    let core ← handleCtxOpCore id "cbrt" p emax emin traps mode xs ys ia ds fls errs auxs none (some mo)
+    let obs ← cbrtObservation id pfx tapes
     pure (core.1 ++ obs.1, core.2.1 + obs.2.1, core.2.2 + obs.2.2)
   | ["sqrt", p, emax, emin, traps, mode, xs, ys, ia, "=>", ds, fls, errs, auxs, tapes] => do
     let core ← handleCtxOpCore id "sqrt" p emax emin traps mode xs ys ia ds fls errs auxs none
